@@ -7,7 +7,8 @@ from project import cfg_proj
 
 MODULE = "TraceGrammar"
 FAMILIES = [("Sat3", "any"), ("Sat3", "any"), ("Bool", "any"), ("Rat", "nocycle"), ("Rat", "acyclic"),
-            ("MaxTimes", "nocycle"), ("Sat2", "any"), ("RatU", "acyclic"), ("Sat3", "twocycles"), ("Bool", "twocycles")]
+            ("MaxTimes", "nocycle"), ("Sat2", "any"), ("RatU", "acyclic"), ("Sat3", "twocycles"), ("Bool", "twocycles"),
+            ("Rat", "signed")]        # signed real weights: partial sums that cancel to exactly zero
 SINGLE = ["trim", "cotrim", "binarize", "separate_start", "separate_terminals", "nullaryremove", "unaryremove",
           "unarycycleremove", "cnf", "renumber", "rename", "unfold", "getitem_start"]
 POSTS = {"cnf", "nonullary", "nounary", "nounarycycle", "arity2", "startoff", "preterminal", "trimmed", "cotrimmed", "nozero"}
@@ -53,9 +54,12 @@ def generate(rng, tier, shard, nshards):
         if gi < 8 and shard == 0:
             sp = special_grammars(R)
             g = sp[gi % len(sp)]
+        elif shape == "signed":
+            g = fam.signed_cfg(rng, R)
+            shape = "acyclic"
         else:
             g = fam.rand_cfg(rng, R, shape=shape, nN=rng.choice([2, 3, 3, 4]), nrules=rng.choice([3, 5, 6]))
-        feat = fam.feature_key(g)
+        feat = fam.feature_key(g) + ("+signed-weights" if srn == "Rat" and any(r.w < 0 for r in g.rules) else "")
         names = rng.choice(["str", "str", "int", "tuple"])
         if gi % 4 == 0:
             g = fam.permuted(g, rng)
